@@ -527,14 +527,18 @@ theorem Applies.apply {σ args env f args' r σ'} (ha : 1 ≤ args.length) (hs :
   exact Stable.of_succ hr N fun n hn => by
     show applyLoop (n+1) _ _ _ _ = _
     rw [applyLoop]
-    have : arityOk 1 true args.length = true := by simp [arityOk]; omega
+    have : arityOk 1 true args.length = true := by
+      have : ¬ args.length < 1 := by omega
+      simp [arityOk, this]
     simp only [procArity, Builtin.arity, this, hs]; simpa using h n hn
 theorem Applies.apply_err {σ args env er} (ha : 1 ≤ args.length) (hs : spreadApply args = .error er)
     (hne : er ≠ .fuel) : Applies σ (.builtin .apply) args env (.error (er, none)) σ :=
   Stable.of_succ (.error_of hne) 0 fun n _ => by
     show applyLoop (n+1) _ _ _ _ = _
     rw [applyLoop]
-    have : arityOk 1 true args.length = true := by simp [arityOk]; omega
+    have : arityOk 1 true args.length = true := by
+      have : ¬ args.length < 1 := by omega
+      simp [arityOk, this]
     simp only [procArity, Builtin.arity, this, hs]; simp
 
 section closure
@@ -603,27 +607,51 @@ end closure
 
 /-! ### procedure bodies -/
 
+/-- the store after binding the rest parameter (if any) to the list of remaining arguments -/
+def bindRest (σ : Store) (ρ : Nat) (rest : Option String) (restArgs : List Value) : Store :=
+  match rest with
+  | some r => σ.define ρ r (Value.ofList restArgs)
+  | none => σ
+
+/-- one unfolding of `applyScheme`, with the rest-parameter step named -/
+theorem applyScheme_succ (n : Nat) (σ : Store) (lam : Lambda) (cenv : Nat) (args : List Value) :
+    applyScheme (n+1) σ lam cenv args =
+      match bindFixed (σ.newFrame (some cenv)).2 (σ.newFrame (some cenv)).1 lam.formals.fixed args with
+      | (.error er, σ₁) => (.error (er, none), σ₁)
+      | (.ok restArgs, σ₁) =>
+        match evalDefs n (bindRest σ₁ (σ.newFrame (some cenv)).1 lam.formals.rest restArgs)
+            (σ.newFrame (some cenv)).1 lam.defs with
+        | (.error er, σ₂) => (.error er, σ₂)
+        | (.ok (), σ₂) => evalBody n σ₂ (σ.newFrame (some cenv)).1 lam.body := by
+  rw [applyScheme]; simp only [bindRest]
+  generalize bindFixed _ _ _ _ = x
+  obtain ⟨r, σ₁⟩ := x
+  cases r with
+  | error e => rfl
+  | ok ra =>
+    simp only
+    generalize lam.formals.rest = rest
+    cases rest <;> rfl
+
 /-- `apply_scheme_procedure`: new frame under the closure's frame, parameters, definitions, body -/
 theorem AppliesScheme.intro_ok {σ lam cenv args restArgs σ₁ σ₂ r σ'}
     (hb : bindFixed (σ.newFrame (some cenv)).2 (σ.newFrame (some cenv)).1 lam.formals.fixed args = (.ok restArgs, σ₁))
-    (hd : EvalsDefs (match lam.formals.rest with
-                     | some x => σ₁.define (σ.newFrame (some cenv)).1 x (Value.ofList restArgs)
-                     | none => σ₁) (σ.newFrame (some cenv)).1 lam.defs (.ok ()) σ₂)
+    (hd : EvalsDefs (bindRest σ₁ (σ.newFrame (some cenv)).1 lam.formals.rest restArgs)
+            (σ.newFrame (some cenv)).1 lam.defs (.ok ()) σ₂)
     (hbody : EvalsBody σ₂ (σ.newFrame (some cenv)).1 lam.body r σ') : AppliesScheme σ lam cenv args r σ' := by
   obtain ⟨_, N₁, h₁⟩ := hd.out; obtain ⟨hr, N₂, h₂⟩ := hbody.out
   exact Stable.of_succ hr (max N₁ N₂) fun n hn => by
     show applyScheme (n+1) _ _ _ _ = _
-    rw [applyScheme]; simp only [hb, h₁ n (by omega)]; exact h₂ n (by omega)
+    rw [applyScheme_succ]; simp only [hb, h₁ n (by omega)]; exact h₂ n (by omega)
 theorem AppliesScheme.defs_err {σ lam cenv args restArgs σ₁ er σ₂}
     (hb : bindFixed (σ.newFrame (some cenv)).2 (σ.newFrame (some cenv)).1 lam.formals.fixed args = (.ok restArgs, σ₁))
-    (hd : EvalsDefs (match lam.formals.rest with
-                     | some x => σ₁.define (σ.newFrame (some cenv)).1 x (Value.ofList restArgs)
-                     | none => σ₁) (σ.newFrame (some cenv)).1 lam.defs (.error er) σ₂) :
+    (hd : EvalsDefs (bindRest σ₁ (σ.newFrame (some cenv)).1 lam.formals.rest restArgs)
+            (σ.newFrame (some cenv)).1 lam.defs (.error er) σ₂) :
     AppliesScheme σ lam cenv args (.error er) σ₂ := by
   obtain ⟨hr, N₁, h₁⟩ := hd.out
   exact Stable.of_succ hr.cast N₁ fun n hn => by
     show applyScheme (n+1) _ _ _ _ = _
-    rw [applyScheme]; simp only [hb, h₁ n (by omega)]
+    rw [applyScheme_succ]; simp only [hb, h₁ n (by omega)]
 
 theorem EvalsDefs.nil {σ ρ} : EvalsDefs σ ρ [] (.ok ()) σ :=
   Stable.of_succ (by simp) 0 fun n _ => by show evalDefs (n+1) _ _ _ = _; rw [evalDefs]
